@@ -466,10 +466,23 @@ func isBlank(s string) bool {
 // key only when the key is an exported Go identifier, so the model sees exactly those entries (vis).
 // Fields have the dynamic values' own Go types (int, float64, bool, time.Time, string ...; nested
 // values stay maps / slices), plus one unexported field.
-func StructInput(in IVal) (vis IVal, mk func() any, ok bool) {
+// Audit and Extra are embedded into generated input records: fields promoted from them follow Go's selector
+// rules (a field of the record itself hides a promoted one of the same name; a field promoted from a nil
+// embedded pointer is not there).
+type Audit struct{ Count, Ratio, Active, At, Zip, Label, Total any }
+type Extra struct{ Count, Ratio, Active, At, Zip, Label, Total any }
+
+var promotable = map[string]bool{"Count": true, "Ratio": true, "Active": true, "At": true, "Zip": true, "Label": true, "Total": true}
+
+// StructInput turns a record into a Go struct value.  variant 0: flat.  1: the record embeds Audit first,
+// whose same-named fields hold decoys (hidden by the record's own fields).  2 / 3: one field lives in an
+// embedded *Extra instead, which is nil (the field is absent) / not nil; the record is handed over by pointer.
+func StructInput(in IVal, variant int) (vis IVal, mk func() any, ok bool) {
 	vis = IVal{Kind: "map", node: in.node}
 	var fs []reflect.StructField
 	seen := map[string]bool{}
+	moved := "" // the key that lives in the embedded *Extra (variants 2, 3)
+	var movedVal IVal
 	for _, kv := range in.M {
 		k := kv.K
 		if k == "" || k[0] < 'A' || k[0] > 'Z' || seen[k] {
@@ -485,8 +498,15 @@ func StructInput(in IVal) (vis IVal, mk func() any, ok bool) {
 			continue
 		}
 		seen[k] = true
+		if (variant == 2 || variant == 3) && moved == "" && promotable[k] {
+			moved, movedVal = k, kv.V
+			if variant == 3 {
+				vis.M = append(vis.M, kv) // reachable through the pointer
+			}
+			continue
+		}
 		ft := reflect.TypeOf((*any)(nil)).Elem()
-		if x := kv.V.Go(nil); x != nil && len(vis.M)%2 == 0 {
+		if x := kv.V.Go(nil); x != nil && len(fs)%2 == 0 {
 			ft = reflect.TypeOf(x) // a concretely typed field: 0, false and the zero time are still values
 		}
 		vis.M = append(vis.M, kv)
@@ -495,14 +515,55 @@ func StructInput(in IVal) (vis IVal, mk func() any, ok bool) {
 	if len(fs) == 0 {
 		return vis, nil, false
 	}
+	direct := len(fs)
+	var directKVs []IKV
+	for _, kv := range vis.M {
+		if kv.K != moved {
+			directKVs = append(directKVs, kv)
+		}
+	}
 	fs = append(fs, reflect.StructField{Name: "hidden", PkgPath: "zogverif/eng", Type: reflect.TypeOf("")})
+	switch {
+	case variant == 1:
+		fs = append([]reflect.StructField{{Name: "Audit", Type: reflect.TypeOf(Audit{}), Anonymous: true}}, fs...)
+	case moved != "":
+		fs = append([]reflect.StructField{{Name: "Extra", Type: reflect.TypeOf(&Extra{}), Anonymous: true}}, fs...)
+	}
 	st := reflect.StructOf(fs)
+	off := 0
+	if variant == 1 || moved != "" {
+		off = 1
+	}
 	mk = func() any {
 		v := reflect.New(st).Elem()
-		for i, kv := range vis.M {
-			if x := kv.V.Go(nil); x != nil {
-				v.Field(i).Set(reflect.ValueOf(x))
+		for i, kv := range directKVs {
+			if i >= direct {
+				break
 			}
+			if x := kv.V.Go(nil); x != nil {
+				v.Field(off + i).Set(reflect.ValueOf(x))
+			}
+		}
+		switch {
+		case variant == 1:
+			// decoys under the names the record itself has (and only those: the others stay absent)
+			a := reflect.ValueOf(&Audit{}).Elem()
+			for _, kv := range directKVs {
+				if promotable[kv.K] {
+					a.FieldByName(kv.K).Set(reflect.ValueOf("decoy-" + kv.K))
+				}
+			}
+			v.Field(0).Set(a)
+			return v.Interface()
+		case moved != "":
+			if variant == 3 {
+				e := &Extra{}
+				if x := movedVal.Go(nil); x != nil {
+					reflect.ValueOf(e).Elem().FieldByName(moved).Set(reflect.ValueOf(x))
+				}
+				v.Field(0).Set(reflect.ValueOf(e))
+			}
+			return v.Addr().Interface() // by pointer: the record could be written to
 		}
 		return v.Interface()
 	}
